@@ -280,6 +280,22 @@ def aux_facts(lin, forms):
     return out
 
 
+def infeasible(facts, max_k=3, limit=28):
+    """Are the facts linearly inconsistent?  Sound: True only when a sum of at most max_k of them has non-negative
+    coefficients (atoms are unsigned) and a constant >= 1 - i.e. something >= 1 is required to be <= 0."""
+    def absurd(f):
+        return f[1] >= 1 and all(v >= 0 for v in f[0].values())
+    fs = list(facts)[:limit]
+    for k in range(1, max_k + 1):
+        for sub in itertools.combinations(fs, k):
+            tot = ({}, 0)
+            for f in sub:
+                tot = lin_add(tot, f)
+            if absurd(tot):
+                return True
+    return False
+
+
 def entails(facts, q, max_k=3):
     """Is q <= 0 implied?  Sound, incomplete: q - sum(subset of facts) must have only non-positive coefficients
     (atoms are unsigned, hence -atom <= 0) and a non-positive constant."""
